@@ -40,6 +40,11 @@ def cnf_case_eval(case):
             if case.get("query"):
                 from inference.conditional import Conditional
                 k, b, a = case["query"]
+                import zlib
+                if zlib.crc32(json.dumps(case["query"]).encode()) % 2 == 0:
+                    # the same transformation object has encoded another query before, carrying the same free-text label
+                    tt.query_to_cnf(Conditional(core.f_pysmt(("!", b), names), core.f_pysmt(a, names), "q"))
+                    tt.query_to_cnf(Conditional(core.f_pysmt(a, names), core.f_pysmt(("|", a, b), names), "q"))
                 qc = tt.query_to_cnf(Conditional(core.f_pysmt(b, names), core.f_pysmt(a, names), "q"))
         pool = es["pool"]
 
